@@ -1,1 +1,309 @@
-/-! # C11 — property theorems (stub: not built yet) -/
+import KM.Lemmas.IPBlock
+/-! # C11 — IP-restricted automation certificates work only from their netblocks
+
+Property theorems only.  `encode`/`decode` mirror `encodeIpAddressChoice` /
+`decodeIPV4AddressChoice`, `parseBits`/`marshalBits` the DER layer of a BIT STRING,
+`verify`/`extract` the two readers, `mintExt` what a reader sees of a certificate made by
+`GenIPRestrictedX509Cert`, `refresh` the refresh handler behind `checkAuth(AuthTypeIPCertificate)`.
+Every statement holds for all addresses and all prefix lengths 0–32 (no enumeration of addresses;
+the 33 mask shapes are a finite table closed by `decide` in `KM.Lemmas.IPBlock.mask_shape`). -/
+namespace KM.IPBlock
+
+/-- **Round trip**: a canonical block (host bits zero, as `net.ParseCIDR` delivers) survives
+encode → `asn1.Marshal` → `asn1.Unmarshal` → decode unchanged. -/
+theorem c11_roundtrip (b : Block) (h : b.ones ≤ 32) (hc : b.canonical) :
+    parseBits (marshalBits (encode b)) = some (encode b) ∧ decode (encode b) = .ok b := by
+  refine ⟨?_, decode_encode_canonical b h hc⟩
+  rw [parse_marshal_encode b h, if_neg (canonical_not_dirty b h hc)]
+
+/-- **Round trip, any block**: with host bits set the DER layer either refuses the value (set
+padding bits — every reader then reports an error) or the decoder returns the block with its host
+bits cleared; that block admits exactly the peers the original one describes.  Never wider. -/
+theorem c11_roundtrip_any (b : Block) (h : b.ones ≤ 32) :
+    (parseBits (marshalBits (encode b)) = none ∨
+      (parseBits (marshalBits (encode b)) = some (encode b) ∧ decode (encode b) = .ok b.canon)) ∧
+    ∀ p, contains b.canon p = contains b p := by
+  refine ⟨?_, fun p => contains_canon b p⟩
+  rw [parse_marshal_encode b h]
+  by_cases hd : dirty b
+  · left; simp [hd]
+  · right; exact ⟨by simp [hd], decode_encode_of_clean b h hd⟩
+
+/-- **Membership**: a certificate minted for canonical netblocks `bs` authenticates a peer iff the
+peer has an IPv4 (or IPv4-mapped) address `a` with `a & mask(len) = addr` for one of the blocks;
+the reader never errs on such a certificate unless the peer string has no port. -/
+theorem c11_member (bs : List Block) (hb : ∀ b ∈ bs, b.ones ≤ 32 ∧ b.canonical) (p : Peer) :
+    ∃ e, mintExt (bs.map Net.v4) = some e ∧
+      (verify e p = .ok true ↔
+        p ≠ .noPort ∧ ∃ b ∈ bs, ∃ a, p.ip4 = some a ∧ a.and (mask b.ones) = b.ip) ∧
+      (p ≠ .noPort → verify e p = .ok true ∨ verify e p = .ok false) ∧
+      (p = .noPort → verify e p = .err) := by
+  refine ⟨_, mintExt_canonical bs hb, ?_, ?_, ?_⟩
+  · cases p with
+    | noPort => simp [verify, verifyWith]
+    | _ =>
+      simp only [verify, verifyWith, verifyFamsWith, ne_eq, not_true_eq_false, if_false,
+        verifyAddrs_mint bs hb, reduceCtorEq, not_false_eq_true, true_and]
+      cases hany : bs.any (contains · _) with
+      | false =>
+        constructor
+        · intro h; injection h with h; cases h
+        · rintro ⟨b, hbm, a, ha, hm⟩
+          have := List.any_eq_false.mp hany b hbm
+          exact absurd ((contains_canonical (hb b hbm).2 _).mpr ⟨a, ha, hm⟩) this
+      | true =>
+        refine ⟨fun _ => ?_, fun _ => rfl⟩
+        obtain ⟨b, hbm, hc⟩ := List.any_eq_true.mp hany
+        obtain ⟨a, ha, hm⟩ := (contains_canonical (hb b hbm).2 _).mp hc
+        exact ⟨b, hbm, a, ha, hm⟩
+  · intro hp
+    cases p with
+    | noPort => exact absurd rfl hp
+    | _ =>
+      simp only [verify, verifyWith, verifyFamsWith, ne_eq, not_true_eq_false, if_false,
+        verifyAddrs_mint bs hb]
+      cases bs.any (contains · _) <;> simp
+  · intro hp; subst hp; simp [verify, verifyWith]
+
+/-- the 32-bit reading of the membership test: `a & (0xFFFFFFFF << (32-len)) = addr` -/
+theorem c11_member_bv (b : Block) (h : b.ones ≤ 32) (a : IP4) :
+    a.and (mask b.ones) = b.ip ↔
+      toBV a &&& (BitVec.allOnes (8 + 8 + 8 + 8) <<< (32 - b.ones)) = toBV b.ip := by
+  rw [← mask_bv ⟨b.ones, by omega⟩, ← and_bv]
+  exact ⟨fun h => by rw [h], toBV_inj⟩
+
+/-- **Read back**: the netblocks extracted from a minted certificate are the ones it was minted
+with (same order) — what the refresh handler copies into the new certificate. -/
+theorem c11_extract (bs : List Block) (hb : ∀ b ∈ bs, b.ones ≤ 32 ∧ b.canonical) :
+    ∃ e, mintExt (bs.map Net.v4) = some e ∧ extract e = .ok bs ∧ e.restricted = true := by
+  refine ⟨_, mintExt_canonical bs hb, ?_, rfl⟩
+  simp [extract, extractWith, extractFamsWith, extractAddrs_mint bs hb]
+
+/-- anything that is not an IPv4 netblock is refused at minting time -/
+theorem c11_mint_other (ns : List Net) (h : Net.other ∈ ns) : mintExt ns = none := by
+  have : encodeNets ns = none := by
+    induction ns with
+    | nil => cases h
+    | cons n ns ih =>
+      cases n with
+      | other => simp [encodeNets]
+      | v4 b =>
+        have h' : Net.other ∈ ns := by
+          cases h with
+          | tail _ h' => exact h'
+        simp [encodeNets, ih h']
+  simp [mintExt, mintFams, this]
+
+/-- **Malformed extensions**, for every extension value a trusted certificate could carry and every
+peer: (1) neither reader panics; (2) an oversized or short bit string is an error of the decoder;
+(3) `true` is only ever answered on the strength of a well-formed IPv4 block that contains the
+peer — nothing malformed widens access; (4) one undecodable block or one foreign family makes
+extraction (hence refresh) fail; (5) a value `asn1.Unmarshal` rejects is an error. -/
+theorem c11_malformed :
+    (∀ e p, verify e p ≠ .panic ∧ extract e ≠ .panic) ∧
+    (∀ s : BitStr, 32 < s.bitLen ∨ s.bytes.length < (s.bitLen + 7) / 8 → decode s = .err) ∧
+    (∀ e p, verify e p = .ok true →
+      ∃ fs, e = .parsed fs ∧ ∃ f ∈ fs, f.afi = v4afi ∧ ∃ s ∈ f.addrs, ∃ b, decode s = .ok b ∧
+        contains b p = true ∧ s.bitLen ≤ 32 ∧ (s.bitLen + 7) / 8 ≤ s.bytes.length ∧ b.ones = s.bitLen) ∧
+    (∀ fs bs, extract (.parsed fs) = .ok bs →
+      ∀ f ∈ fs, f.afi = v4afi ∧ ∀ s ∈ f.addrs, ∃ b, decode s = .ok b) ∧
+    (∀ p, verify .unparsable p = .err ∧ extract .unparsable = .err ∧
+      verify .absent p ≠ .ok true ∧ extract .absent = .err) := by
+  refine ⟨fun e p => ⟨verify_ne_panic decode_ne_panic e p, extract_ne_panic decode_ne_panic e⟩,
+    fun s h => by simp [decode, guard_true h], ?_, ?_, ?_⟩
+  · intro e p h
+    cases e with
+    | absent => cases p <;> simp [verify, verifyWith] at h
+    | unparsable => cases p <;> simp [verify, verifyWith] at h
+    | parsed fs =>
+      refine ⟨fs, rfl, ?_⟩
+      have h' : verifyFamsWith decode fs p = .ok true := by
+        cases p <;> simp [verify, verifyWith] at h <;> exact h
+      obtain ⟨f, hf, hafi, s, hs, b, hb, hc⟩ := verifyFams_true h'
+      have := decode_ok_bounds hb
+      exact ⟨f, hf, hafi, s, hs, b, hb, hc, this.1, this.2.1, this.2.2⟩
+  · intro fs bs h
+    exact extractFams_ok (by simpa [extract, extractWith] using h)
+  · intro p
+    refine ⟨by cases p <;> simp [verify, verifyWith], by simp [extract, extractWith],
+      by cases p <;> simp [verify, verifyWith], by simp [extract, extractWith]⟩
+
+/-- wire level: a BIT STRING with more than 7 padding bits, with padding but no data, or with a set
+padding bit is refused by the DER layer, so the whole extension is unparsable -/
+theorem c11_malformed_wire (w : WireBits)
+    (h : 7 < w.pad ∨ (w.bytes = [] ∧ w.pad ≠ 0) ∨
+      (w.bytes ≠ [] ∧ (w.bytes.getLast?.getD 0) &&& lowBitsMask w.pad ≠ 0)) :
+    parseBits w = none ∧
+    ∀ afi pre post fpre fpost, Ext.ofWire (fpre ++ ⟨afi, pre ++ w :: post⟩ :: fpost) = .unparsable := by
+  have hp : parseBits w = none := by
+    unfold parseBits
+    rcases h with h | ⟨h1, h2⟩ | ⟨h1, h2⟩
+    · simp [h]
+    · simp [h1, h2]
+    · by_cases h7 : 7 < w.pad
+      · simp [h7]
+      · simp [h7, h1, h2]
+  refine ⟨hp, ?_⟩
+  intro afi pre post fpre fpost
+  have ha : parseAddrs (pre ++ w :: post) = none := by
+    induction pre with
+    | nil => simp [parseAddrs, hp]
+    | cons x xs ih =>
+      simp only [List.cons_append, parseAddrs, ih]
+      cases parseBits x <;> rfl
+  have hf : parseFams (fpre ++ ⟨afi, pre ++ w :: post⟩ :: fpost) = none := by
+    induction fpre with
+    | nil => simp [parseFams, ha]
+    | cons x xs ih =>
+      simp only [List.cons_append, parseFams, ih]
+      cases parseAddrs x.addrs <;> rfl
+  simp [Ext.ofWire, hf]
+
+/-- **Refresh**: whatever extension the presented (trusted) certificate carries, a refresh is
+answered with a new certificate only if the peer lies inside one of the well-formed IPv4 blocks of
+that certificate, the key is not deny-listed, the name is an automation user; the new certificate
+names the same identity and exactly the netblocks read from the old one.  The handler never
+crashes. -/
+theorem c11_refresh (cn : List Char) (e : Ext) (p : Peer) (env : Env) :
+    refresh cn e p env ≠ .crashed ∧
+    ∀ u nets, refresh cn e p env = .issued u nets →
+      u = cn ∧ extract e = .ok nets ∧ verify e p = .ok true ∧
+      env.denied = false ∧ env.automation = true ∧ env.revoked = false ∧
+      ∃ b ∈ nets, contains b p = true := by
+  have hv := verify_ne_panic decode_ne_panic e p
+  have hx := extract_ne_panic decode_ne_panic e
+  unfold verify at *
+  unfold extract at *
+  constructor
+  · unfold refresh refreshWith ipAuthWith
+    cases h1 : verifyWith decode e p with
+    | panic => exact absurd h1 hv
+    | err => simp
+    | ok t =>
+      cases t <;> simp
+      cases env.denied <;> cases env.automation <;> cases env.revoked <;> simp
+      split
+      · simp
+      · cases h2 : extractWith decode e with
+        | panic => exact absurd h2 hx
+        | err => simp
+        | ok n => simp
+  · intro u nets h
+    unfold refresh refreshWith ipAuthWith at h
+    cases h1 : verifyWith decode e p with
+    | panic => exact absurd h1 hv
+    | err => simp [h1] at h
+    | ok t =>
+      cases t with
+      | false => simp [h1] at h
+      | true =>
+        cases hd : env.denied <;> cases ha : env.automation <;> cases hr : env.revoked <;>
+          simp [h1, hd, ha, hr] at h
+        by_cases hcn : cn = []
+        · simp [hcn] at h
+        · simp only [hcn, if_false] at h
+          cases h2 : extractWith decode e with
+          | panic => exact absurd h2 hx
+          | err => simp [h2] at h
+          | ok n =>
+            simp only [h2, Refresh.issued.injEq] at h
+            obtain ⟨hu, hn⟩ := h
+            subst hu hn
+            refine ⟨rfl, rfl, rfl, rfl, rfl, rfl, ?_⟩
+            -- the block that admitted the peer is among the extracted ones
+            cases e with
+            | absent => simp [extractWith] at h2
+            | unparsable => simp [extractWith] at h2
+            | parsed fs =>
+              have h1' : verifyFamsWith decode fs p = .ok true := by
+                cases p <;> simp [verifyWith] at h1 <;> exact h1
+              obtain ⟨f, hf, _, s, hs, b, hb, hc⟩ := verifyFams_true h1'
+              exact ⟨b, extractFams_mem (by simpa [extractWith] using h2) hf hs hb, hc⟩
+
+/-- **Refresh of a minted certificate**: for a certificate minted for canonical netblocks `bs`
+under the name `cn`, presented by a peer in good standing, refresh succeeds iff the peer is inside
+one of `bs`, and then yields `(cn, bs)` again; from anywhere else it is 403 (or 500 for a peer
+string without port). -/
+theorem c11_refresh_minted (cn : List Char) (hcn : cn ≠ []) (bs : List Block)
+    (hb : ∀ b ∈ bs, b.ones ≤ 32 ∧ b.canonical) (p : Peer) (env : Env)
+    (henv : env.denied = false ∧ env.automation = true ∧ env.revoked = false) :
+    ∃ e, mintExt (bs.map Net.v4) = some e ∧
+      ((∃ b ∈ bs, ∃ a, p.ip4 = some a ∧ a.and (mask b.ones) = b.ip) →
+        p ≠ .noPort → refresh cn e p env = .issued cn bs) ∧
+      ((¬ ∃ b ∈ bs, ∃ a, p.ip4 = some a ∧ a.and (mask b.ones) = b.ip) →
+        p ≠ .noPort → refresh cn e p env = .status 403) ∧
+      (p = .noPort → refresh cn e p env = .status 500) := by
+  obtain ⟨e, he, hmem, hok, herr⟩ := c11_member bs hb p
+  obtain ⟨e', he', hex, _⟩ := c11_extract bs hb
+  rw [he] at he'
+  injection he' with he'
+  subst he'
+  obtain ⟨h1, h2, h3⟩ := henv
+  refine ⟨e, he, ?_, ?_, ?_⟩
+  · intro hin hp
+    have hv := hmem.mpr ⟨hp, hin⟩
+    unfold verify at hv
+    unfold extract at hex
+    simp [refresh, refreshWith, ipAuthWith, hv, h1, h2, h3, hcn, hex]
+  · intro hout hp
+    have hv : verify e p = .ok false := by
+      rcases hok hp with h | h
+      · exact absurd (hmem.mp h).2 hout
+      · exact h
+    unfold verify at hv
+    simp [refresh, refreshWith, ipAuthWith, hv]
+  · intro hp
+    have hv := herr hp
+    unfold verify at hv
+    simp [refresh, refreshWith, ipAuthWith, hv]
+
+/-- the decoder of the pinned tree (no test before the loop) **panics** on an address extension a
+trusted certificate can carry: 40 bits (`index out of range [4] with length 4`), and — by a direct
+call only, the DER layer never produces it — 8 bits without bytes; the reader, and with it the
+handler goroutine behind `checkAuth`, goes down with it. -/
+theorem c11_unfixed_counterexample :
+    decodeOld ⟨40, [10, 0, 0, 0, 0]⟩ = .panic ∧
+    decodeOld ⟨8, []⟩ = .panic ∧
+    parseBits ⟨0, [10, 0, 0, 0, 0]⟩ = some ⟨40, [10, 0, 0, 0, 0]⟩ ∧
+    verifyOld (.parsed [⟨v4afi, [⟨40, [10, 0, 0, 0, 0]⟩]⟩]) (.v4 ⟨10, 0, 0, 1⟩) = .panic ∧
+    extractOld (.parsed [⟨v4afi, [⟨40, [10, 0, 0, 0, 0]⟩]⟩]) = .panic ∧
+    refreshWith decodeOld "role1".toList (.parsed [⟨v4afi, [⟨40, [10, 0, 0, 0, 0]⟩]⟩])
+      (.v4 ⟨192, 168, 1, 1⟩) ⟨false, true, false⟩ = .crashed := by
+  decide
+
+/-- **Source facts** (regenerated from the working tree on every run): the decoder tests
+`BitLength > 32` and `len(Bytes) < (BitLength+7)/8` before a copy loop of the recognised shape into
+a 4-byte array; the family constant is `{0,1,1}` and the OID 1.3.6.1.5.5.7.1.7; the verifier skips
+and the extractor refuses foreign families; the IP branch of `checkAuth` verifies the presented
+leaf against `r.RemoteAddr` and names its CN; the refresh handler demands `AuthTypeIPCertificate`,
+takes the identity from the credential and the netblocks from the presented leaf. -/
+theorem c11_source :
+    KM.Gen.C11.decodeGuardMaxBits = some 32 ∧ KM.Gen.C11.decodeGuardBytes = true ∧
+    KM.Gen.C11.decodeLoopRecognised = true ∧ KM.Gen.C11.decodeArrayLen = 4 ∧
+    KM.Gen.C11.ipV4FamilyEncoding = [0, 1, 1] ∧
+    KM.Gen.C11.oidIPAddressDelegation = [1, 3, 6, 1, 5, 5, 7, 1, 7] ∧
+    KM.Gen.C11.verifyWrongFamily = "skip".toList ∧ KM.Gen.C11.extractWrongFamily = "error".toList ∧
+    KM.Gen.C11.ipBranchVerifyCert = "VerifiedChains[0][0]".toList ∧
+    KM.Gen.C11.ipBranchVerifyAddr = "r.RemoteAddr".toList ∧
+    KM.Gen.C11.ipBranchNameSource = "VerifiedChains[0][0].Subject.CommonName".toList ∧
+    KM.Gen.C11.refreshAuthMask = "AuthTypeIPCertificate".toList ∧
+    KM.Gen.C11.refreshRoleSource = "authData.Username".toList ∧
+    KM.Gen.C11.refreshNetblocksSource =
+      "certgen.ExtractIPNetsFromIPRestrictedX509(r.TLS.VerifiedChains[0][0])".toList := by
+  decide
+
+/-! non-vacuity: the hypotheses are satisfiable and the model computes what one expects -/
+example : (⟨⟨10, 32, 0, 0⟩, 12⟩ : Block).canonical := by decide
+example : ¬ (⟨⟨10, 33, 0, 0⟩, 12⟩ : Block).canonical := by decide
+example : mintExt [.v4 ⟨⟨10, 32, 0, 0⟩, 12⟩, .v4 ⟨⟨192, 168, 7, 128⟩, 25⟩] =
+    some (.parsed [⟨v4afi, [⟨12, [10, 32]⟩, ⟨25, [192, 168, 7, 128]⟩]⟩]) := by decide
+example : verify (.parsed [⟨v4afi, [⟨12, [10, 32]⟩, ⟨25, [192, 168, 7, 128]⟩]⟩]) (.v4 ⟨10, 47, 255, 255⟩)
+    = .ok true := by decide
+example : verify (.parsed [⟨v4afi, [⟨12, [10, 32]⟩, ⟨25, [192, 168, 7, 128]⟩]⟩]) (.v4mapped ⟨10, 48, 0, 0⟩)
+    = .ok false := by decide
+example : verify (.parsed [⟨v4afi, [⟨40, [10, 0, 0, 0, 0]⟩]⟩]) (.v4 ⟨10, 0, 0, 1⟩) = .err := by decide
+example : mintExt [.v4 ⟨⟨10, 33, 0, 0⟩, 12⟩] = some .unparsable := by decide
+example : refresh "role1".toList (.parsed [⟨v4afi, [⟨8, [10]⟩]⟩]) (.v4 ⟨10, 1, 2, 3⟩) ⟨false, true, false⟩
+    = .issued "role1".toList [⟨⟨10, 0, 0, 0⟩, 8⟩] := by decide
+
+end KM.IPBlock
